@@ -81,6 +81,25 @@ def _family(name):
     return name
 
 
+def _base_rule(name):
+    """Innermost rule name of a generated wrapper rule: controlled(adjoint(_x)) -> _x."""
+    changed = True
+    while changed:
+        changed = False
+        for pre in ("controlled(", "adjoint(", "flip_zero_ctrl_values("):
+            if name.startswith(pre) and name.endswith(")"):
+                name = name[len(pre):-1]
+                changed = True
+    return name
+
+
+def _mech_name(tagkey, rname):
+    """Mechanism key: generated wrapper rules (controlled/adjoint/flip of a base rule) are keyed by the base rule they wrap,
+    so the same defect seen through different wrappers/instances is one mechanism; direct rules keep (registry key, rule)."""
+    b = _base_rule(rname)
+    return f"wrapped:{b}" if b != rname else f"{tagkey}:{rname}"
+
+
 def _classify(emitted, declared, exact):
     """'workwire-attrs' when every discrepancy disappears once work-wire count/type are ignored in the keys."""
     def fold(d):
@@ -177,7 +196,7 @@ def run(ctx):  # noqa: C901
                 wrong = {_s(k): (emitted.get(k, 0), declared.get(k, 0)) for k in set(emitted) | set(declared)
                          if emitted.get(k, 0) != declared.get(k, 0)}
                 cl = _classify(emitted, declared, True)
-                mech = f"{cl}:{_family(rule.name)}" if cl else f"count:{tagkey}:{rule.name}"
+                mech = f"{cl}:{_family(rule.name)}" if cl else f"count:{_mech_name(tagkey, rule.name)}"
                 _viol(ctx, "resources.exact", f"{tagkey}::{rule.name} on {info['op']}: emitted gate counts differ from the declared "
                                                  f"exact resources; (emitted, declared) per type: {wrong}",
                               case=info, mech=mech, observed=info["emitted"], expected=info["declared"])
@@ -186,7 +205,7 @@ def run(ctx):  # noqa: C901
             missing = [k for k in emitted if k not in declared]
             if missing:
                 cl = _classify(emitted, declared, False)
-                mech = f"{cl}:{_family(rule.name)}" if cl else f"undeclared:{tagkey}:{rule.name}"
+                mech = f"{cl}:{_family(rule.name)}" if cl else f"undeclared:{_mech_name(tagkey, rule.name)}"
                 _viol(ctx, "resources.subset", f"{tagkey}::{rule.name} on {info['op']}: emitted gate types not among the declared "
                                                   f"(inexact) resources: {[_s(k) for k in missing]}",
                               case=info, mech=mech, observed=info["emitted"], expected=info["declared"])
